@@ -155,12 +155,27 @@ def correspondence(outcome, tier, seed):
     for i, d in enumerate(ins):
         reqs.append({"id": 2 * i, "to": "msgpack", "calls": [{"input": shared.hx(d), "from": "json", "mode": "slice"}]})
         reqs.append({"id": 2 * i + 1, "to": "msgpack", "calls": [{"input": shared.hx(d), "from": "json", "mode": "reader", "sched": corpus.random_sched(rng)}]})
+    # JSON -> JSON (the writer model) for the inputs the slice path translates
+    wreqs = [{"id": i, "to": "json", "calls": [{"input": shared.hx(d), "from": "json", "mode": "slice"}]} for i, d in enumerate(ins)]
     resps = common.harness_batch(reqs, timeout=1800, jobs=16)
+    wresps = common.harness_batch(wreqs, timeout=1800, jobs=16)
     lines = []
     for i, d in enumerate(ins):
         lines.append("JT %ds S %s" % (i, shared.hx(d)))
         lines.append("JT %dr R %s" % (i, shared.hx(d)))
+        lines.append("JW %dw %s" % (i, shared.hx(d)))
     model = common.run_driver_lines(lines)
+    n_written = 0
+    for i, d in enumerate(ins):
+        m = model.get("%dw" % i, "missing")
+        if m == "none":
+            continue
+        got = shared.session_result(wresps[i])
+        n_written += 1
+        if got[0] != "ok" or (got[2] or "-") != m:
+            outcome.disagreements.append({"what": "JSON -> JSON: the bytes xt writes differ from the JSON writer model applied to what the reader model read",
+                                          "input_hex": shared.hx(d)[:4000], "input": d[:200].decode("utf-8", "replace"),
+                                          "implementation": "%s %s" % (got[0], (got[2] or "-")[:600]), "model": m[:600]})
     verdicts = {}
     nontrivial = 0
     for i, d in enumerate(ins):
@@ -191,6 +206,6 @@ def correspondence(outcome, tier, seed):
     outcome.evaluations += 2 * len(ins)
     outcome.distinct_nontrivial += nontrivial
     outcome.extra["json_correspondence"] = {
-        "inputs": len(ins), "input_kinds": kinds, "verdicts": verdicts, "successful_nonempty_translations": nontrivial,
+        "inputs": len(ins), "input_kinds": kinds, "json_to_json_outputs_compared_with_the_writer_model": n_written, "verdicts": verdicts, "successful_nonempty_translations": nontrivial,
         "compared": "verdict; on success the MessagePack bytes; on failure the bytes of the complete documents (slice: equal, reader: prefix)"}
     outcome.add_sample({"json": ins[min(len(ins) - 1, 3000)][:80].decode("utf-8", "replace"), "model": model.get("%ds" % min(len(ins) - 1, 3000), "")[:120]})
